@@ -314,3 +314,32 @@ pub fn decrypt_message(
 ) -> Result<Vec<u8>, String> {
     crypto::decrypt_message(key, nonce, msg, aad).map_err(|e| format!("{e:?}"))
 }
+
+// ---------------------------------------------------------------------------------------------
+// a session on its own
+// ---------------------------------------------------------------------------------------------
+
+/// A `Session` outside a handler: lets a check drive `Session::encrypt_message` for histories far
+/// longer than a handler-level exchange can afford.
+pub struct VSession(Session);
+
+impl VSession {
+    pub fn new(encryption_key: [u8; 16], decryption_key: [u8; 16]) -> Self {
+        VSession(Session::verif_from_keys(encryption_key, decryption_key))
+    }
+
+    /// `Session::encrypt_message`: (message nonce, authenticated data, ciphertext) of the packet.
+    pub fn encrypt_message(
+        &mut self,
+        src_id: NodeId,
+        message: &[u8],
+    ) -> Result<(MessageNonce, Vec<u8>, Vec<u8>), String> {
+        let packet = self
+            .0
+            .encrypt_message(src_id, message, Default::default())
+            .map_err(|e| format!("{e:?}"))?;
+        let mut aad = packet.iv.to_be_bytes().to_vec();
+        aad.extend_from_slice(&packet.header.encode());
+        Ok((packet.header.message_nonce, aad, packet.message))
+    }
+}
